@@ -10,7 +10,7 @@ JOBS = [
   Job("c01.create", TU, "h_create", replace=CREATE_REPL, replace_calls=CREATE_CALLS,
       restrict_fp=["myth_create_1.function_pointer_call.1/verif_user_fn"],
       cbmc=["--unwind", "10", "--unwinding-assertions"],
-      fuc=["myth_create_ex_body", "myth_create_1", "init_myth_thread_struct", "myth_tls_tree_init"], timeout=300),
+      fuc=["myth_create_ex_body", "myth_create_1", "init_myth_thread_struct", "myth_tls_tree_init"], timeout=900),
   Job("c01.entry_point", TU, "h_entry_point", replace=["myth_entry_point_cleanup/cleanup_contract", "myth_tls_tree_fini/tls_fini_c01_contract"],
       restrict_fp=["myth_entry_point.function_pointer_call.1/verif_user_fn"], fuc=["myth_entry_point"], timeout=200),
   Job("c01.exit", TU, "h_exit", replace=["myth_entry_point_cleanup/cleanup_contract", "myth_tls_tree_fini/tls_fini_c01_contract"], fuc=["myth_exit_body"], timeout=200),
